@@ -268,12 +268,27 @@ func (R *Repository) updateCRL(identifier string) error {
 	if entry != nil {
 		R.logger.Debug("updating crl from " + entry.CRLLoader.GetDescription())
 		if R.isEntryLoaded(entry) == false {
+			if R.crlConfig.CDPConfig.CRLFetchModeParsed == config.CRLFetchModeActively {
+				//a handshake might be loading this entry right now while holding the entry lock
+				return R.loadIfStillNotLoaded(entry)
+			}
 			return R.loadCRL(entry, entry.Chains)
 		} else {
 			return R.updateCrlEntry(entry, nil)
 		}
 	}
 	return nil
+}
+
+// loadIfStillNotLoaded loads a not yet loaded entry while holding the entry write lock, so that the load
+// can not run concurrently with the first-use load of the same entry done by a handshake (fetch_actively)
+func (R *Repository) loadIfStillNotLoaded(entry *Entry) error {
+	entry.entryLock.Lock()
+	defer entry.entryLock.Unlock()
+	if entry.Loaded {
+		return nil
+	}
+	return R.loadCRL(entry, entry.Chains)
 }
 
 func (R *Repository) updateCrlEntry(entry *Entry, newChains *core.CertificateChains) (err error) {
